@@ -2,7 +2,9 @@
 
     [access_row] is what the extractor translate/markeraccess reads off the Go source of
     x/marker/keeper/marker.go and msg_server.go for every method mentioning a guard; the generated
-    table is coq/Gen/GenMarkerAccess.v.  [documented_access_table] is the hand-written side:
+    table is coq/Gen/GenMarkerAccess.v.  Unexported helpers of the package have no rows: what they
+    test is attributed to the functions calling them (transitively), so that extracting or
+    inlining a helper does not change the table.  [documented_access_table] is the hand-written side:
     for the fifteen administration endpoints the row is COMPUTED from the documented requirement
     table of Marker/Access.v ([documented], transcribed from accessgrant.proto and the spec files),
     the remaining rows (transfers, helper functions, governance-only endpoints) are written out
@@ -50,6 +52,13 @@ Definition row_of_op (name : string) (o : op) : access_row :=
      row_any_grant := any;
      row_unrecognised := [] |}.
 
+(** The rights an endpoint tests through helpers on OTHER markers come on top of its own. *)
+Definition with_tests (r : access_row) (extra : list right) : access_row :=
+  {| row_func := row_func r;
+     row_tests := filter (fun x => existsb (right_eqb x) (row_tests r ++ extra)) all_rights;
+     row_manager := row_manager r; row_authority := row_authority r; row_all_supply := row_all_supply r;
+     row_any_grant := row_any_grant r; row_unrecognised := row_unrecognised r |}.
+
 Definition plain_row (name : string) (tests : list right) (mgr auth : bool) (unrec : list string) : access_row :=
   {| row_func := name; row_tests := tests; row_manager := mgr; row_authority := auth;
      row_all_supply := false; row_any_grant := false; row_unrecognised := unrec |}.
@@ -73,11 +82,12 @@ Definition documented_access_table : list access_row := [
   row_of_op "Keeper.MintCoin" OMint;
   row_of_op "Keeper.RemoveAccess" ODeleteAccess;
   row_of_op "Keeper.SetMarkerDenomMetadata" OSetMetadata;
-  (* 12_transfers.md MsgTransferRequest flow: "Does Admin have transfer or force-transfer" *)
-  plain_row "Keeper.TransferCoin" [RTransfer; RForceTransfer] false false [];
-  row_of_op "Keeper.WithdrawCoins" OWithdraw;
-  (* 12_transfers.md "Deposits": deposit permission on the target marker *)
-  plain_row "Keeper.validateSendToMarker" [RDeposit] false false [];
+  (* 12_transfers.md MsgTransferRequest flow: "Does Admin have transfer or force-transfer", then
+     checkReceiverMarker; "Deposits": deposit permission on a restricted destination marker
+     (the helper validateSendToMarker, attributed to its callers) *)
+  plain_row "Keeper.TransferCoin" [RDeposit; RTransfer; RForceTransfer] false false [];
+  (* withdraw on the source marker, plus deposit on a restricted destination marker *)
+  with_tests (row_of_op "Keeper.WithdrawCoins" OWithdraw) [RDeposit];
   (* governance-only or authority-aware endpoints of the message server *)
   plain_row "msgServer.AddMarker" [] false true [];
   row_of_op "msgServer.AddNetAssetValues" OAddNav;
